@@ -185,6 +185,7 @@ func bindingAlphabet(st *State, cfg *ExploreCfg) []Ev {
 				Ev{Name: "UpdateBinding", Signer: o, Svc: "s1", Prov: p, HasPr: true, Pr: pr(7)},
 				Ev{Name: "UpdateBinding", Signer: o, Svc: "s1", Prov: p, HasPr: true, Pr: pr(1)},
 				Ev{Name: "UpdateBinding", Signer: o, Svc: "s1", Prov: p, Deposit: 4, DShape: "ok"},
+				Ev{Name: "UpdateBinding", Signer: o, Svc: "s1", Prov: p, HasPr: true, Pr: pr(7), Deposit: 2, DShape: "ok"},
 			)
 		}
 	}
